@@ -61,7 +61,8 @@ type c13Rev struct {
 }
 
 type c13Step struct {
-	OK bool `json:"ok"`
+	OK  bool   `json:"ok"`
+	Err string `json:"err,omitempty"` // error text, for the replay file only (never compared)
 	// snapshots for the oracle
 	ValsMutated bool `json:"vals_mutated,omitempty"`
 }
@@ -81,7 +82,8 @@ func (*c13) Rule() string {
 	return "chains: install followed by 1-5 upgrades/rollbacks (2-6 steps) through the real actions; per upgrade a random combination of " +
 		"ResetValues/ReuseValues/ResetThenReuseValues (single flags and none most often, also combinations), values that are a mutation of an " +
 		"earlier step's values (nulls, table<->scalar changes, dropped keys), empty or nil in 1/4 of the steps; the chart's defaults change between " +
-		"versions in half of the upgrades; rollbacks to the previous, an explicit earlier or a non-existent revision; " +
+		"versions in half of the upgrades (mutated, or type-flipped: tables become scalars/lists and back); a third of the chains use a chart with 1-2 levels " +
+		"of subcharts (defaults of every level change, subcharts come and go, user sections for subcharts, scalars on subchart keys, globals); rollbacks to the previous, an explicit earlier or a non-existent revision; " +
 		"non-trivial = at least two revisions stored and at least one upgrade with a reuse flag or a rollback succeeded; distinct = hash of (case, observation)"
 }
 
@@ -113,11 +115,116 @@ func (*c13) Corpus() []any {
 
 func (*c13) Exhaustive(string) []any { return nil }
 
+// vtFlipTypes: the same keys, but tables become scalars/lists and non-tables become tables
+// for about a third of them (a chart whose defaults changed type between versions).
+func vtFlipTypes(r *rand.Rand, t vtree, d int) vtree {
+	out := vtree{}
+	for k, v := range t {
+		m, isTable := v.(vtree)
+		switch {
+		case r.Intn(3) > 0:
+			if isTable && d > 0 {
+				out[k] = vtFlipTypes(r, m, d-1)
+			} else {
+				out[k] = v
+			}
+		case isTable:
+			if r.Intn(3) == 0 {
+				out[k] = []interface{}{vtScalar(r)}
+			} else {
+				out[k] = vtScalar(r)
+			}
+		default:
+			out[k] = vtGenMap(r, 1, 1+r.Intn(2))
+		}
+	}
+	return out
+}
+
+func c13CopyChart(c *c04Chart) *c04Chart {
+	n := &c04Chart{Name: c.Name, Values: vtCopyMap(c.Values)}
+	for _, d := range c.Deps {
+		n.Deps = append(n.Deps, c13CopyChart(d))
+	}
+	return n
+}
+
+// c13NextVersion: the next version of a chart: defaults mutated or type-flipped at some
+// levels, now and then a subchart dropped or added.
+func c13NextVersion(r *rand.Rand, c *c04Chart, top bool) *c04Chart {
+	n := &c04Chart{Name: c.Name, Values: vtCopyMap(c.Values)}
+	if r.Intn(2) == 0 || top {
+		v := n.Values
+		if v == nil {
+			v = vtree{}
+		}
+		if r.Intn(3) == 0 {
+			n.Values = vtFlipTypes(r, v, 2)
+		} else {
+			n.Values = vtMutate(r, v, 3)
+		}
+	}
+	for _, d := range c.Deps {
+		if r.Intn(10) == 0 {
+			continue
+		}
+		n.Deps = append(n.Deps, c13NextVersion(r, d, false))
+	}
+	if top && len(n.Deps) < 2 && r.Intn(10) == 0 {
+		n.Deps = append(n.Deps, &c04Chart{Name: "extra", Values: vtGenMap(r, 2, 2)})
+	}
+	// keep the parent's own section for a subchart a table (a scalar there fails every operation)
+	for _, d := range n.Deps {
+		if x, ok := n.Values[d.Name]; ok && !vtIsTable(x) && r.Intn(6) > 0 {
+			delete(n.Values, d.Name)
+		}
+	}
+	return n
+}
+
 func (*c13) Generate(r *rand.Rand, _ int) any {
 	base := vtGenMap(r, 3, 2+r.Intn(3))
-	dflt := vtMutate(r, base, 3)
-	vals := vtMutate(r, base, 3)
-	c := c13Case{Ops: []c13Op{{Kind: "install", Chart: c13Chart("c", dflt), Vals: vals}}}
+	var ch *c04Chart
+	withDeps := r.Intn(3) == 0
+	if withDeps {
+		ch = c04GenChart(r, "c", 1+r.Intn(2), base)
+		if ch.Values == nil {
+			ch.Values = vtree{}
+		}
+		for _, d := range ch.Deps {
+			if x, ok := ch.Values[d.Name]; ok && !vtIsTable(x) {
+				delete(ch.Values, d.Name)
+			}
+		}
+	} else {
+		ch = c13Chart("c", vtMutate(r, base, 3))
+	}
+	// user values: sections for the subcharts are tables (mostly), globals now and then
+	userVals := func(from vtree) vtree {
+		v := vtMutate(r, from, 3)
+		for _, d := range ch.Deps {
+			switch k := r.Intn(10); {
+			case k < 5:
+				dv := d.Values
+				if dv == nil {
+					dv = vtree{}
+				}
+				v[d.Name] = vtMutate(r, dv, 2)
+			case k < 6:
+				v[d.Name] = vtScalar(r)
+			default:
+				if x, ok := v[d.Name]; ok && !vtIsTable(x) {
+					delete(v, d.Name)
+				}
+			}
+		}
+		if withDeps && r.Intn(3) == 0 {
+			v["global"] = vtGenMap(r, 2, 1+r.Intn(2))
+		}
+		return v
+	}
+	vals := userVals(base)
+	c := c13Case{Ops: []c13Op{{Kind: "install", Chart: c13CopyChart(ch), Vals: vals}}}
 	hist := []vtree{vals}
 	n := 1 + r.Intn(5)
 	revs := 1
@@ -149,18 +256,18 @@ func (*c13) Generate(r *rand.Rand, _ int) any {
 			op.Reset, op.Reuse, op.RTR = r.Intn(2) == 0, r.Intn(2) == 0, r.Intn(2) == 0
 		}
 		if r.Intn(2) == 0 {
-			dflt = vtMutate(r, dflt, 3)
+			ch = c13NextVersion(r, ch, true)
 		}
-		op.Chart = c13Chart("c", dflt)
+		op.Chart = c13CopyChart(ch)
 		switch k := r.Intn(8); {
 		case k == 0:
 			op.Vals, op.NilVals = nil, true
 		case k == 1:
 			op.Vals = vtree{}
 		case k < 4:
-			op.Vals = vtMutate(r, base, 3)
+			op.Vals = userVals(base)
 		default:
-			op.Vals = vtMutate(r, hist[r.Intn(len(hist))], 3)
+			op.Vals = userVals(hist[r.Intn(len(hist))])
 		}
 		if op.Vals != nil {
 			hist = append(hist, op.Vals)
@@ -263,6 +370,12 @@ func (*c13) Execute(ci any) (res any) {
 			return obs
 		}
 		st.OK = err == nil
+		if err != nil {
+			st.Err = err.Error()
+			if len(st.Err) > 200 {
+				st.Err = st.Err[:200]
+			}
+		}
 		if o.Kind != "rollback" && !vtEqual(vals, o.Vals) {
 			st.ValsMutated = true
 		}
@@ -358,7 +471,13 @@ func (*c13) Class(ci, oi any) string {
 			ks = append(ks, k)
 		}
 	}
-	return strings.Join(ks, "+")
+	lbl := strings.Join(ks, "+")
+	for _, o := range c.Ops {
+		if o.Chart != nil && len(o.Chart.Deps) > 0 {
+			return "subcharts:" + lbl
+		}
+	}
+	return lbl
 }
 
 func (*c13) NonTrivial(ci, oi any) bool {
